@@ -16,8 +16,8 @@ const pkgNumeric = "internal/utils/numeric"
 
 func init() {
 	register("C10", &propSpec{
-		Explanation: "Structural necessary conditions of exact literal range checking and value preservation: (R1) at every literal position (initialiser/assignment, call argument, return value) checkFitness runs before the value is accepted; (R2) every conversion of literal text to a number follows one base convention — optional '-', 0x/0o/0b prefix, otherwise decimal — no Go base-0 parsing (leading-zero octal), decimal-only parsers are recorded findings; (R3) the range tables (int64 fast path bounds, big-integer bounds, bit sizes and signedness per type name) equal the exact two's-complement bounds for all twelve types; (R4) large (128/256-bit) constants are normalised through the same parser and materialised by the matching from_string helper. Does not decide ferret_parse_uint or QBE's own constant parsing.",
-		Quick:       []ruleFn{c10R1, c10R2, c10R3, typeTablesRule("C10.R3t"), c10R4},
+		Explanation: "Structural necessary conditions of exact literal range checking and value preservation: (R1) at every literal position (initialiser/assignment, call argument, return value) checkFitness runs before the value is accepted; (R1b) both operand types handed to checkBinaryExpr (binary expressions and compound assignments) went through bindUntypedNumericLiteral against the other operand, the step that range-checks a literal operand and gives it the other operand's type; (R2) every conversion of literal text to a number follows one base convention — optional '-', 0x/0o/0b prefix, otherwise decimal — no Go base-0 parsing (leading-zero octal), decimal-only parsers are recorded findings; (R3) the range tables (int64 fast path bounds, big-integer bounds, bit sizes and signedness per type name) equal the exact two's-complement bounds for all twelve types; (R4) large (128/256-bit) constants are normalised through the same parser and materialised by the matching from_string helper. Does not decide ferret_parse_uint or QBE's own constant parsing.",
+		Quick:       []ruleFn{c10R1, c10R1b, c10R2, c10R3, typeTablesRule("C10.R3t"), c10R4},
 	})
 }
 
@@ -113,6 +113,67 @@ func c10R1(c *Ctx, r *Report) {
 		}
 	}
 	r.Check(ok && fitsCall != nil, rule, fits.Name(), "range from GetNumberBitSize / IsSigned of the target", c.pos(fits.Decl.Pos()), "the integer range check no longer derives width and signedness from the target type")
+}
+
+// C10.R1b: literal operands of binary operators and compound assignments are bound (fitness + type).
+func c10R1b(c *Ctx, r *Report) {
+	const rule = "C10.R1b"
+	r.Describe(rule, "every checkBinaryExpr call: each operand type was produced by bindUntypedNumericLiteral on every path, or is the typed context of the other operand's binding")
+	cbe := c.LookupFn(pkgTC, "checkBinaryExpr")
+	bind := c.LookupFn(pkgTC, "bindUntypedNumericLiteral")
+	fitness := c.LookupFn(pkgTC, "checkFitness")
+	if !r.Anchor(rule, cbe != nil && bind != nil && fitness != nil, "typechecker.checkBinaryExpr / bindUntypedNumericLiteral / checkFitness") {
+		return
+	}
+	r.Check(nodeCalls(bind.Info(), bind.Decl.Body, fitness.Obj) != nil, rule, bind.Name(), "binding runs checkFitness", c.pos(bind.Decl.Pos()), "bindUntypedNumericLiteral no longer range-checks the literal against the other operand's type")
+	n := 0
+	for _, fn := range c.AllFns(pkgTC) {
+		if fn.Decl.Body == nil {
+			continue
+		}
+		info := fn.Info()
+		for _, call := range callsIn(fn.Decl.Body, false) {
+			if !isCallTo(info, call, cbe.Obj) || len(call.Args) != 5 {
+				continue
+			}
+			n++
+			g := c.CFG(fn)
+			// bound[v]: assigned from bind(...) on every path; ctxOf[v]: v is the otherType argument of a bind call whose result var is bound
+			boundOn := func(v types.Object) (bool, types.Object) {
+				var other types.Object
+				hits := mustFlow(g, FlowSpec{
+					Gate: func(nd ast.Node) bool {
+						as, ok := nd.(*ast.AssignStmt)
+						if !ok || len(as.Lhs) != 1 || len(as.Rhs) != 1 || objOf(info, as.Lhs[0]) != v {
+							return false
+						}
+						cl, ok := ast.Unparen(as.Rhs[0]).(*ast.CallExpr)
+						if !ok || !isCallTo(info, cl, bind.Obj) || len(cl.Args) != 6 {
+							return false
+						}
+						other = objOf(info, cl.Args[4])
+						return true
+					},
+					Target: func(nd ast.Node) bool { return nodeCallsPred(nd, func(x *ast.CallExpr) bool { return x == call }) != nil },
+				})
+				return len(hits) == 0, other
+			}
+			lv, rv := objOf(info, call.Args[3]), objOf(info, call.Args[4])
+			lb, lo := false, types.Object(nil)
+			rb, ro := false, types.Object(nil)
+			if lv != nil {
+				lb, lo = boundOn(lv)
+			}
+			if rv != nil {
+				rb, ro = boundOn(rv)
+			}
+			okL := lb || (rb && ro == lv && lv != nil)
+			okR := rb || (lb && lo == rv && rv != nil)
+			r.Check(okL && okR, rule, fn.Name(), "operands of checkBinaryExpr("+exprStr(call.Args[2])+") bound", c.pos(call.Pos()),
+				fmt.Sprintf("an operand type reaches checkBinaryExpr without bindUntypedNumericLiteral (left bound=%v, right bound=%v): an untyped literal operand there is neither range-checked against the other operand's type nor given it, so `x op= 1000` on an i8 is accepted and the literal is lowered as a 32-bit constant whatever the target width", okL, okR))
+		}
+	}
+	r.Floor(rule, n, 2, "checkBinaryExpr call sites")
 }
 
 // C10.R2: one base convention.
